@@ -625,9 +625,9 @@ func apiSpecs() []*HarnessSpec {
 		Note: "symbolic records (key, int64 offset): strictly increasing offsets with Get, non-decreasing block offsets (arbitrary block structure as models of the symbolic offsets) with RangeGet; a key-verifying reader; found exactly for indexed keys with the stored record, for an arbitrary symbolic query"})
 	out = append(out, &HarnessSpec{Name: "ix_skel", Pkg: "index", Property: "C12", Witness: 1,
 		Quick: []Grid{{"keys": {7, 105, 120, 154, 194, 342}, "bs": {1, 3, 64}, "lq": {1}},
-			{"keys": {12, 13}, "bs": {1, 3}, "lq": {1}}, // key lengths 0..300, on and around 32/64/128/256 bytes
+			{"keys": {12, 13}, "bs": {1, 3}, "lq": {1}},    // key lengths 0..300, on and around 32/64/128/256 bytes
 			{"keys": {23, 24}, "bs": {1, 2, 5}, "lq": {1}}, // prefix keys of 9..63 bytes followed by a separator byte below 0x10
-			{"keys": {17, 18}, "bs": {1, 3}, "lq": {0}}, // all 256 byte branches at the root (and the empty key); every key is looked up
+			{"keys": {17, 18}, "bs": {1, 3}, "lq": {0}},    // all 256 byte branches at the root (and the empty key); every key is looked up
 			{"keys": {7, 105, 154}, "bs": {1, 3}, "lq": {1}, "other": {1, 2, 3}}},
 		Thorough: []Grid{{"keys": append([]int{7, 154, 194, 342, 623}, step(105, 400, 15)...), "bs": {1, 2, 3, 7, 64}, "lq": {1, 2}}, {"keys": {7, 105, 120, 154, 194, 342}, "bs": {1, 3, 64}, "lq": {1}, "other": {1, 2, 3}}},
 		Note:     "L3: concrete key sets (257-bit root, 64-aligned bitmap lengths / leaf counts / inner-node counts, sweeps) with block sizes 1..64: every indexed key returns its record; a symbolic query is found exactly when indexed"})
